@@ -119,6 +119,17 @@ theorem C18_env (idx base : Str) :
 
 /-! ### order -/
 
+/-- **Index order is numeric order.** `sortPlugins` compares the index *strings*; for two-digit
+    indices that is the numeric order, leading zeros included: `"07" < "08" < "09" < "10"`
+    (an index parsed as a number with base auto-detection would read "08"/"09" as invalid
+    octal — seeded/C18-s4). Same fact as `idx_order` of C06, restated on this model. -/
+theorem C18_index_order (i1 i2 : Str) (h1 : checkIndex i1 = true) (h2 : checkIndex i2 = true) :
+    strLe i1 i2 = true ↔ idxVal i1 ≤ idxVal i2 :=
+  idx_strLe_iff h1 h2
+
+example : strLe "07".toList "08".toList = true ∧ strLe "09".toList "10".toList = true ∧
+    strLe "08".toList "01".toList = false ∧ idxVal "09".toList = 9 := by decide
+
 /-- **Order.** Plugins are launched in index order, and the active plugins in launch order
     are sorted by index — so the order `sortPlugins` produces (any index-sorted permutation)
     invokes them in index order. -/
